@@ -84,7 +84,72 @@ def nontrivial(hist) -> bool:
     return False
 
 
-VARIANTS = ["memerr_pre", "memerr_post", "int_pre", "int_post", "switch_pre", "switch_post"]
+VARIANTS = ["memerr_pre", "memerr_post", "int_pre", "int_post", "switch_pre", "switch_post", "duet_pre", "duet_post"]
+
+
+def duet_case(rng, case, history, site, variant, stats):
+    """Directed concurrency case: the step that reaches `site` is paused right before / after that write, a SECOND
+    client then runs one complete call of the SAME operation on other operands of the pool, then the first resumes.
+    This is the schedule that exposes call-local state kept in module- or class-level variables.
+    Returns (case, history, plan) or None."""
+    site = tuple(site)
+    hit = None
+    for h in history:
+        if h.get("status") != "ok":
+            continue
+        for o, key in (h.get("wsk") or []):
+            if tuple(key) == site:
+                hit = (h, o)
+                break
+        if hit:
+            break
+    if hit is None:
+        return None
+    h, o = hit
+    op = OPS.get(h["op"])
+    if op is None:
+        return None
+    world, _ = X.build_world(case)
+    n_rec = len(case["recipes"])
+    metas = {s_: m for s_, m in world.metas.items() if s_ < n_rec}
+    args2 = []
+    for k, spec in enumerate(op.args):
+        orig = h["args"][k] if k < len(h["args"]) else None
+        m0 = world.metas.get(orig) if orig in world.metas else None
+        cands = [s_ for s_ in sorted(metas) if spec.ok(metas[s_]) and
+                 (m0 is None or metas[s_].get("dim") == m0.get("dim"))]
+        if not cands:
+            return None
+        other = [s_ for s_ in cands if s_ != orig] or cands
+        args2.append(rng.choice(other))
+    case = json.loads(json.dumps(strip_case(case), default=batch_default))
+    new_i = max(s_["i"] for s_ in case["steps"]) + 1
+    top = max([x for s_ in case["steps"] for x in s_.get("out", [])] + [n_rec]) + 1
+    for s_ in case["steps"]:
+        s_["c"] = 0
+    case["steps"].append({"i": new_i, "c": 1, "op": h["op"], "args": args2, "p": h.get("p"),
+                          "out": list(range(top, top + X.MAX_OUT)), "mode": "typed"})
+    case["cfg"]["n_clients"] = 2
+    hist2, v = X.golden_run(case, None, stats)
+    if v is not None:
+        return None
+    h2 = next((x for x in hist2 if x["i"] == h["i"]), None)
+    if h2 is None or h2.get("status") != "ok":
+        return None
+    after = [w for w in (h2.get("ws") or []) if w > o]
+    at = o if variant.endswith("_pre") or not after else after[0]
+    before = sum(1 for x in hist2 if x["i"] < h["i"] and x.get("status") != "removed")
+    grants = [[0, 0]] * before + [[0, 0], [1, 0]]
+    plan = {"exec": "preempt", "config": "directed:" + variant, "faults": [], "fp": [], "evict_mid": [],
+            "switch_at": [{"step": h["i"], "at": at}], "sched_seed": rng.getrandbits(48), "quantum_mean": 300,
+            "target_site": seam.site_str(site), "grants": grants}
+    return case, hist2, plan
+
+
+def batch_default(o):
+    from .batch import _json_default
+
+    return _json_default(o)
 
 
 def directed_plan(rng, case, history, site, variant) -> dict | None:
@@ -133,7 +198,16 @@ def run_c12_seed(seed, want_sample: bool = False, config: str | None = None) -> 
             res["site_hits"] = hits
         if v is None:
             cfgname = config or CONFIGS[rng.randrange(4)]
-            if directed is not None:
+            if directed is not None and directed[1].startswith("duet"):
+                dc = duet_case(rng, case, history, directed[0], directed[1], stats)
+                cfgname = "directed"
+                if dc is None:
+                    res["config"] = "directed_unreached"
+                    res["wall"] = time.perf_counter() - t0
+                    return res
+                case, history, plan = dc
+                stats.setdefault("directed", {})[directed[1]] = 1
+            elif directed is not None:
                 plan = directed_plan(rng, case, history, *directed)
                 cfgname = "directed"
                 if plan is None:
@@ -146,6 +220,8 @@ def run_c12_seed(seed, want_sample: bool = False, config: str | None = None) -> 
                         st["c"] = k % 2
                     history = [dict(h, c=case["steps"][j]["c"]) for j, h in enumerate(history)]
                 stats.setdefault("directed", {})[directed[1]] = 1
+            elif directed is not None:
+                pass
             else:
                 plan = program_plan(rng, case, history, cfgname)
             res["config"] = cfgname
